@@ -6,6 +6,7 @@ let dispatch (line : string) : string =
   | "rd" :: rest -> S_rd.run rest
   | "wr" :: rest -> S_wr.run rest
   | "tx" :: rest -> S_tx.run rest
+  | "pa" :: rest -> S_pa.run rest
   | s :: _ -> failwith ("unknown stream " ^ s)
   | [] -> ""
 
